@@ -4,6 +4,7 @@ import Mathlib.Algebra.BigOperators.Group.List.Basic
 import OnlVerif.Lemmas.Port
 import OnlVerif.Net.GenSink
 import OnlVerif.Lemmas.NetworkNodes
+import OnlVerif.Lemmas.NetworkOrder
 /-!
 # C08 — packets are never lost, duplicated or invented between source and sink
 
@@ -274,6 +275,26 @@ theorem network_drains {σ : Type} (n : Wiring ι π κ) (nd : ι → Node π σ
     have := mem_of_rc_pos.mp hm
     omega
 
+/-- **Packets of one flow arrive at the end of a chain in the order they entered it**: let `sel` select packets (a flow, a
+source, …) and let `a₀ → a₁ → … → aₙ` be a chain of nodes such that, for each link `aᵢ → aᵢ₊₁`, the wiring sends every selected
+packet `aᵢ` forwards to `aᵢ₊₁` and no other node does (`Link`: linear chains, tree fan-out keyed by flow), no source injects
+selected packets at `aᵢ₊₁`, and `aᵢ` is order-preserving on the selected packets (what it forwarded is, in order, among what
+was handed to it — for every FifoServer this is `flow_order` above, for the schedulers per flow `C12.mq_flow_fifo`,
+`C12.stamp_flow_fifo_wfq/_vc`).  Then in every reachable state the selected packets handed to `aₙ` are, in the same order, among
+the selected packets handed to `a₀` — for every `n`, by induction along the chain; each link contributes the invariant
+"handed to `aᵢ₊₁` = forwarded by `aᵢ`, as lists", proved over all runs. -/
+theorem network_flow_order (n : Wiring ι π κ) (sel : π → Bool) (es : List (GEv ι π)) (g : GState ι π)
+    (hr : Net.run n {} es = .ok g) (a0 : ι) (chain : List ι)
+    (hc : ChainOK (fun a b => Link n sel a b ∧ NoInject es sel b ∧ OrderPreserving g sel a) a0 chain) :
+    ((g.recs (.inn (lastOf a0 chain))).filter sel).Sublist ((g.recs (.inn a0)).filter sel) ∧
+    ChainOK (fun a b => (g.recs (.inn b)).filter sel = (g.recs (.out a)).filter sel) a0 chain := by
+  refine ⟨chain_order n sel es g hr chain a0 hc, ?_⟩
+  induction chain generalizing a0 with
+  | nil => trivial
+  | cons b rest ih =>
+    obtain ⟨⟨hl, hni, _⟩, hrest⟩ := hc
+    exact ⟨link_inv n sel a0 b hl es hni {} g hr rfl, ih b hrest⟩
+
 end Network
 
 /-! ### the element skeletons are nodes -/
@@ -420,6 +441,37 @@ example : exDigest (Net.run (nwiring (fun a p => if a = 0 then (if p.copy = 0 th
 /-- the hypotheses of `mq_node` are met by a DRR scheduler with classes 7 and 8 -/
 example : MQ.Lawful (DRR.sched ({ rate := 8000, weights := [(7, 1), (8, 1)], flowMap := some [(1, 7), (2, 7), (3, 8)] } : DRR.Cfg ℚ)) :=
   DRR.lawful _
+
+/-- in the example network port 0 → demux 1 is a link for all packets, and demux 1 → DRR 3 is a link for flow 1 (the
+hypotheses `Link` of `network_flow_order`); no packet is injected at nodes 1 and 3 -/
+example : Link (nwiring exNext) (fun _ => true) 0 1 ∧ Link (nwiring exNext) (fun p => p.flow == 1) 1 3 ∧
+    NoInject exRun (fun _ => true) 1 ∧ NoInject exRun (fun p => p.flow == 1) 3 := by
+  have hd : ∀ p : NPkt, demuxNext { outs := [2, 3] } (fun d => (Dest.node d : Dest Nat)) 99 p =
+      (match p.flow with | 0 => .node 2 | 1 => .node 3 | _ => .sink 99) := by
+    intro p
+    rw [(demux_node { outs := [2, 3] } (fun d => (Dest.node d : Dest Nat)) 99 p).2.2.1]
+    rcases hf : p.flow with _ | _ | k <;> simp
+  refine ⟨⟨fun p _ => rfl, ?_⟩, ⟨?_, ?_⟩, ?_, ?_⟩
+  · intro c p _ h
+    match c with
+    | 0 => rfl
+    | 1 =>
+      simp only [nwiring, exNext, hd] at h
+      rcases hf : p.flow with _ | _ | k <;> rw [hf] at h <;> simp at h
+    | 2 => simp [nwiring, exNext] at h
+    | k + 3 => simp [nwiring, exNext] at h
+  · intro p hp
+    have hf : p.flow = 1 := by simpa using hp
+    simp only [nwiring, exNext, hd, hf]
+  · intro c p hp h
+    have hf : p.flow = 1 := by simpa using hp
+    match c with
+    | 0 => simp [nwiring, exNext] at h
+    | 1 => rfl
+    | 2 => simp [nwiring, exNext] at h
+    | k + 3 => simp [nwiring, exNext] at h
+  · intro p o hm; simp [exRun] at hm
+  · intro p o hm; simp [exRun] at hm
 
 end Example
 
